@@ -35,6 +35,14 @@ CHECKS = {
     ),
 }
 
+CHECKS["C10"] = dict(
+    category="exploration",
+    technique="deterministic simulation: seeded programs with real conditions over probe-controlled state vs reference interpreter; loop hook-free pass/test counting; seeded frequency test",
+    text="Seeded search over generated configurations whose while/if conditions are the real LessThanN, EveryN, ChangeOf (both checkers), OptimumReached and And/Or/Not over state that probe leaves rewrite from small value ranges; every evaluation's truth value, the progress value after every less-than-n test and the exactly-once evaluation of every operand are compared event for event with the reference interpreter. Iteration-bounded loops (n in 0..200, nested in scopes, inner loops in their own scope): exactly n passes, n+1 tests, progress k/n. RandomChance: exact for p in {0,1}, otherwise frequency over >= 20000 seeded draws within 6 sigma + 0.005.",
+    note="Oracle: reference interpreter in sim/src/engine/program.rs; change-of is modelled with one memory per observed lens and 'first evaluation reports a change'. The probabilistic clause is a statistical test, not a proof; its tolerance keeps the false-alarm probability below 1e-8 per case.",
+    design_ref="5/C10",
+)
+
 NOT_APPLICABLE = [
     ("C04", "pure sequential container (Vec wrapper): no schedule, fault or cross-step state for a simulator to control; deciding it is input enumeration (DESIGN.md section 3)"),
     ("C09", "value algebra of two float wrappers: pure function of its inputs, nothing to simulate (DESIGN.md section 3)"),
